@@ -1001,53 +1001,83 @@ theorem geo_inplace {b : KvBlk} (h : Geo b) (idx : Nat) (val : Bytes) (hidx : id
       · intro e; exact absurd e hused
     · rw [ene i hi]
 
-theorem updatev_eq (b : KvBlk) (idx : Nat) (val : Bytes) :
-    updatev b idx val =
-      if recSize (sl b.slots idx).key val ≤ (sl b.slots idx).len then .ok (inplace b idx val) idx
-      else if (sl b.slots idx).off - prevOff b.slots (sl b.slots idx).off ≥ recSize (sl b.slots idx).key val ∧
+theorem updatevGrow_eq (b : KvBlk) (idx : Nat) (val : Bytes) :
+    updatevGrow b idx val =
+      if (sl b.slots idx).off - prevOff b.slots (sl b.slots idx).off ≥ recSize (sl b.slots idx).key val ∧
           ¬ (2 ^ b.szpow - Gen.KVBLK_HDRSZ - b.idxsz - b.maxoff + vn (sl b.slots idx).len < vn (recSize (sl b.slots idx).key val)) then
         .ok (inplace b idx val) idx
       else match addkv (rmkv b idx true) (sl b.slots idx).key val with
         | .ok b' i => .ok b' i
         | e => .failed (rmkv b idx true) e := rfl
 
-/-- `_kvblk_updatev` preserves the geometry in all three branches (in place, grown into the gap, removed and added) -/
-theorem geo_updatev {b : KvBlk} (h : BlkInv b) (idx : Nat) (hidx : idx < b.slots.length) (val : Bytes) :
-    Geo (updatev b idx val).blk := by
-  rw [updatev_eq]
+theorem updatev_eq (b : KvBlk) (idx : Nat) (val : Bytes) :
+    updatev b idx val =
+      if recSize (sl b.slots idx).key val ≤ (sl b.slots idx).len then .ok (inplace b idx val) idx
+      else if recSize (sl b.slots idx).key val > Gen.IWKV_MAX_KVSZ then .failed b .maxkvsz
+      else updatevGrow b idx val := rfl
+
+theorem updatevOld_eq (b : KvBlk) (idx : Nat) (val : Bytes) :
+    updatevOld b idx val =
+      if recSize (sl b.slots idx).key val ≤ (sl b.slots idx).len then .ok (inplace b idx val) idx
+      else updatevGrow b idx val := rfl
+
+/-- the growing branches preserve the geometry (grown into the gap; removed and added, including a failing add) -/
+theorem geo_updatevGrow {b : KvBlk} (h : BlkInv b) (idx : Nat) (hidx : idx < b.slots.length) (val : Bytes)
+    (hgt : ¬ recSize (sl b.slots idx).key val ≤ (sl b.slots idx).len) : Geo (updatevGrow b idx val).blk := by
+  rw [updatevGrow_eq]
   have hpos := recSize_pos (sl b.slots idx).key val
   have hlo := h.tab.lenoff idx
   have hr := h.room'
   have hi := h.idxge
   split
-  · rename_i hle
-    -- shorter or equal: same offset, smaller length
-    have hused : (sl b.slots idx).len ≠ 0 := by omega
+  · rename_i hgap
+    have hoffpos : (sl b.slots idx).off ≠ 0 := by omega
+    have hused : (sl b.slots idx).len ≠ 0 := fun e => hoffpos (h.tab.freeoff idx e)
     apply geo_inplace h.toGeo idx val hidx hused (by omega)
     · intro j hj hju
-      rcases h.tab.disj idx j (Ne.symm hj) hused hju with d | d
-      · exact Or.inl d
-      · right; omega
-    · have := vn_mono hle; have := h.room; omega
+      by_cases hlt : (sl b.slots j).off < (sl b.slots idx).off
+      · right; have := prevOff_ge b.slots (sl b.slots idx).off j hlt; omega
+      · left
+        rcases h.tab.disj idx j (Ne.symm hj) hused hju with d | d
+        · exact d
+        · omega
+    · omega
+  · have hrm := blkInv_rmkv h idx hidx true
+    cases hq : addkv (rmkv b idx true) (sl b.slots idx).key val with
+    | ok b' i => exact (geo_addkv hrm _ _ b' i hq).1
+    | full => exact hrm.toGeo
+    | maxkvsz => exact hrm.toGeo
+
+theorem geo_updatev_inplace {b : KvBlk} (h : BlkInv b) (idx : Nat) (hidx : idx < b.slots.length) (val : Bytes)
+    (hle : recSize (sl b.slots idx).key val ≤ (sl b.slots idx).len) : Geo (inplace b idx val) := by
+  have hpos := recSize_pos (sl b.slots idx).key val
+  have hlo := h.tab.lenoff idx
+  have hused : (sl b.slots idx).len ≠ 0 := by omega
+  apply geo_inplace h.toGeo idx val hidx hused (by omega)
+  · intro j hj hju
+    rcases h.tab.disj idx j (Ne.symm hj) hused hju with d | d
+    · exact Or.inl d
+    · right; omega
+  · have := vn_mono hle; have := h.room; omega
+
+/-- `_kvblk_updatev` preserves the geometry in all branches (in place, refused, grown into the gap, removed and added) -/
+theorem geo_updatev {b : KvBlk} (h : BlkInv b) (idx : Nat) (hidx : idx < b.slots.length) (val : Bytes) :
+    Geo (updatev b idx val).blk := by
+  rw [updatev_eq]
+  split
+  · rename_i hle; exact geo_updatev_inplace h idx hidx val hle
   · rename_i hgt
     split
-    · rename_i hgap
-      have hoffpos : (sl b.slots idx).off ≠ 0 := by omega
-      have hused : (sl b.slots idx).len ≠ 0 := fun e => hoffpos (h.tab.freeoff idx e)
-      apply geo_inplace h.toGeo idx val hidx hused (by omega)
-      · intro j hj hju
-        by_cases hlt : (sl b.slots j).off < (sl b.slots idx).off
-        · right; have := prevOff_ge b.slots (sl b.slots idx).off j hlt; omega
-        · left
-          rcases h.tab.disj idx j (Ne.symm hj) hused hju with d | d
-          · exact d
-          · omega
-      · omega
-    · have hrm := blkInv_rmkv h idx hidx true
-      cases hq : addkv (rmkv b idx true) (sl b.slots idx).key val with
-      | ok b' i => exact (geo_addkv hrm _ _ b' i hq).1
-      | full => exact hrm.toGeo
-      | maxkvsz => exact hrm.toGeo
+    · exact h.toGeo
+    · exact geo_updatevGrow h idx hidx val hgt
+
+/-- the same for the historical algorithm -/
+theorem geo_updatevOld {b : KvBlk} (h : BlkInv b) (idx : Nat) (hidx : idx < b.slots.length) (val : Bytes) :
+    Geo (updatevOld b idx val).blk := by
+  rw [updatevOld_eq]
+  split
+  · rename_i hle; exact geo_updatev_inplace h idx hidx val hle
+  · rename_i hgt; exact geo_updatevGrow h idx hidx val hgt
 
 /-! ### histories -/
 
@@ -1144,71 +1174,106 @@ theorem rmkv_recs_perm {b : KvBlk} (h : BlkInv b) (idx : Nat) (hidx : idx < b.sl
   rw [e1] at p1; rw [e2] at p2
   exact p2.trans (List.Perm.cons _ p1.symm)
 
+theorem inplace_recs {b : KvBlk} (idx : Nat) (hidx : idx < b.slots.length) (val : Bytes) (hused : (sl b.slots idx).len ≠ 0) :
+    ∃ rest, (recs b).Perm (((sl b.slots idx).key, (sl b.slots idx).val) :: rest) ∧
+      (recs (inplace b idx val)).Perm (((sl b.slots idx).key, val) :: rest) := by
+  obtain ⟨e0, ene⟩ := inplace_sl b idx val hidx
+  obtain ⟨rest, p1, p2⟩ := recs_split b.slots (inplace b idx val).slots idx List.length_set hidx
+    (fun i hi => by rw [ene i hi])
+  have e1 : recOf (sl (inplace b idx val).slots idx) = some ((sl b.slots idx).key, val) := by
+    rw [e0]; have := recSize_pos (sl b.slots idx).key val
+    exact recOf_used (newSlot b idx val) (by show recSize (sl b.slots idx).key val ≠ 0; omega)
+  have e2 : recOf (sl b.slots idx) = some ((sl b.slots idx).key, (sl b.slots idx).val) := recOf_used _ hused
+  rw [e1] at p1; rw [e2] at p2
+  exact ⟨rest, p2, p1⟩
+
+theorem updatevGrow_recs {b : KvBlk} (h : BlkInv b) (idx : Nat) (hidx : idx < b.slots.length) (val : Bytes)
+    (hused : (sl b.slots idx).len ≠ 0) (b' : KvBlk) (i' : Nat) (e : updatevGrow b idx val = .ok b' i') :
+    ∃ rest, (recs b).Perm (((sl b.slots idx).key, (sl b.slots idx).val) :: rest) ∧
+      (recs b').Perm (((sl b.slots idx).key, val) :: rest) := by
+  rw [updatevGrow_eq] at e
+  split at e
+  · simp only [UpdRes.ok.injEq] at e; rw [← e.1]; exact inplace_recs idx hidx val hused
+  · have hrm := blkInv_rmkv h idx hidx true
+    cases hq : addkv (rmkv b idx true) (sl b.slots idx).key val with
+    | ok b2 i2 =>
+      rw [hq] at e
+      simp only [UpdRes.ok.injEq] at e
+      rw [← e.1]
+      exact ⟨recs (rmkv b idx true), rmkv_recs_perm h idx hidx true hused, addkv_recs hrm _ _ b2 i2 hq⟩
+    | full => rw [hq] at e; exact absurd e (by simp)
+    | maxkvsz => rw [hq] at e; exact absurd e (by simp)
+
 /-- `_kvblk_updatev` replaces exactly the value of the slot's record (wherever the record ends up) -/
 theorem updatev_recs {b : KvBlk} (h : BlkInv b) (idx : Nat) (hidx : idx < b.slots.length) (val : Bytes)
     (hused : (sl b.slots idx).len ≠ 0) (b' : KvBlk) (i' : Nat) (e : updatev b idx val = .ok b' i') :
     ∃ rest, (recs b).Perm (((sl b.slots idx).key, (sl b.slots idx).val) :: rest) ∧
       (recs b').Perm (((sl b.slots idx).key, val) :: rest) := by
-  have hin : ∃ rest, (recs b).Perm (((sl b.slots idx).key, (sl b.slots idx).val) :: rest) ∧
-      (recs (inplace b idx val)).Perm (((sl b.slots idx).key, val) :: rest) := by
-    obtain ⟨e0, ene⟩ := inplace_sl b idx val hidx
-    obtain ⟨rest, p1, p2⟩ := recs_split b.slots (inplace b idx val).slots idx List.length_set hidx
-      (fun i hi => by rw [ene i hi])
-    have e1 : recOf (sl (inplace b idx val).slots idx) = some ((sl b.slots idx).key, val) := by
-      rw [e0]; have := recSize_pos (sl b.slots idx).key val
-      exact recOf_used (newSlot b idx val) (by show recSize (sl b.slots idx).key val ≠ 0; omega)
-    have e2 : recOf (sl b.slots idx) = some ((sl b.slots idx).key, (sl b.slots idx).val) := recOf_used _ hused
-    rw [e1] at p1; rw [e2] at p2
-    exact ⟨rest, p2, p1⟩
   rw [updatev_eq] at e
   split at e
-  · simp only [UpdRes.ok.injEq] at e; rw [← e.1]; exact hin
+  · simp only [UpdRes.ok.injEq] at e; rw [← e.1]; exact inplace_recs idx hidx val hused
   · split at e
-    · simp only [UpdRes.ok.injEq] at e; rw [← e.1]; exact hin
-    · have hrm := blkInv_rmkv h idx hidx true
-      cases hq : addkv (rmkv b idx true) (sl b.slots idx).key val with
-      | ok b2 i2 =>
-        rw [hq] at e
-        simp only [UpdRes.ok.injEq] at e
-        rw [← e.1]
-        exact ⟨recs (rmkv b idx true), rmkv_recs_perm h idx hidx true hused, addkv_recs hrm _ _ b2 i2 hq⟩
-      | full => rw [hq] at e; exact absurd e (by simp)
-      | maxkvsz => rw [hq] at e; exact absurd e (by simp)
+    · exact absurd e (by simp)
+    · exact updatevGrow_recs h idx hidx val hused b' i' e
 
-/-- the failure path of `_kvblk_updatev`: `_kvblk_addkv` can only fail with `IWKV_ERROR_MAXKVSZ` (a slot was just freed),
-and then the old record is gone although an error is returned -/
-theorem updatev_failed {b : KvBlk} (h : BlkInv b) (idx : Nat) (hidx : idx < b.slots.length) (val : Bytes)
-    (hused : (sl b.slots idx).len ≠ 0) (b' : KvBlk) (err : AddRes) (e : updatev b idx val = .failed b' err) :
+/-- the failure path of the growing branches: `_kvblk_addkv` can only fail with `IWKV_ERROR_MAXKVSZ` (a slot was just freed),
+and then the old record is gone -/
+theorem updatevGrow_failed {b : KvBlk} (h : BlkInv b) (idx : Nat) (hidx : idx < b.slots.length) (val : Bytes)
+    (hused : (sl b.slots idx).len ≠ 0) (b' : KvBlk) (err : AddRes) (e : updatevGrow b idx val = .failed b' err) :
     err = .maxkvsz ∧ recSize (sl b.slots idx).key val > Gen.IWKV_MAX_KVSZ ∧
     (recs b).Perm (((sl b.slots idx).key, (sl b.slots idx).val) :: recs b') := by
+  rw [updatevGrow_eq] at e
+  split at e
+  · exact absurd e (by simp)
+  · have hrm := blkInv_rmkv h idx hidx true
+    have hfree := (rmkv_recs h idx hidx true).2.1
+    have hlen := (rmkv_recs h idx hidx true).1
+    cases hq : addkv (rmkv b idx true) (sl b.slots idx).key val with
+    | ok b2 i2 => rw [hq] at e; exact absurd e (by simp)
+    | full =>
+      exfalso
+      simp only [addkv] at hq
+      split at hq
+      · rename_i hz
+        have := (firstFree_none _).1 (by rw [← hrm.zidx, hz]) idx (by rw [hlen]; exact hidx)
+        exact this hfree
+      · split at hq <;> exact absurd hq (by simp)
+    | maxkvsz =>
+      rw [hq] at e
+      simp only [UpdRes.failed.injEq] at e
+      refine ⟨e.2.symm, ?_, ?_⟩
+      · simp only [addkv] at hq
+        split at hq
+        · exact absurd hq (by simp)
+        · split at hq
+          · rename_i hbig; exact hbig
+          · exact absurd hq (by simp)
+      · rw [← e.1]; exact rmkv_recs_perm h idx hidx true hused
+
+/-- **A failing `_kvblk_updatev` leaves the block unchanged**: the only failure is `IWKV_ERROR_MAXKVSZ` (record larger than
+`IWKV_MAX_KVSZ`), decided before anything is touched -/
+theorem updatev_failed_keeps {b : KvBlk} (h : BlkInv b) (idx : Nat) (hidx : idx < b.slots.length) (val : Bytes)
+    (hused : (sl b.slots idx).len ≠ 0) (b' : KvBlk) (err : AddRes) (e : updatev b idx val = .failed b' err) :
+    b' = b ∧ err = .maxkvsz ∧ recSize (sl b.slots idx).key val > Gen.IWKV_MAX_KVSZ := by
   rw [updatev_eq] at e
   split at e
   · exact absurd e (by simp)
   · split at e
-    · exact absurd e (by simp)
-    · have hrm := blkInv_rmkv h idx hidx true
-      have hfree := (rmkv_recs h idx hidx true).2.1
-      have hlen := (rmkv_recs h idx hidx true).1
-      cases hq : addkv (rmkv b idx true) (sl b.slots idx).key val with
-      | ok b2 i2 => rw [hq] at e; exact absurd e (by simp)
-      | full =>
-        exfalso
-        simp only [addkv] at hq
-        split at hq
-        · rename_i hz
-          have := (firstFree_none _).1 (by rw [← hrm.zidx, hz]) idx (by rw [hlen]; exact hidx)
-          exact this hfree
-        · split at hq <;> exact absurd hq (by simp)
-      | maxkvsz =>
-        rw [hq] at e
-        simp only [UpdRes.failed.injEq] at e
-        refine ⟨e.2.symm, ?_, ?_⟩
-        · simp only [addkv] at hq
-          split at hq
-          · exact absurd hq (by simp)
-          · split at hq
-            · rename_i hbig; exact hbig
-            · exact absurd hq (by simp)
-        · rw [← e.1]; exact rmkv_recs_perm h idx hidx true hused
+    · rename_i hbig
+      simp only [UpdRes.failed.injEq] at e
+      exact ⟨e.1.symm, e.2.symm, hbig⟩
+    · rename_i hsmall
+      exact absurd (updatevGrow_failed h idx hidx val hused b' err e).2.1 hsmall
+
+/-- HISTORICAL witness of finding C06-MAXKV: the algorithm before fix ade5254 failed only with `IWKV_ERROR_MAXKVSZ`, and then the old
+record had already been removed -/
+theorem updatevOld_failed {b : KvBlk} (h : BlkInv b) (idx : Nat) (hidx : idx < b.slots.length) (val : Bytes)
+    (hused : (sl b.slots idx).len ≠ 0) (b' : KvBlk) (err : AddRes) (e : updatevOld b idx val = .failed b' err) :
+    err = .maxkvsz ∧ recSize (sl b.slots idx).key val > Gen.IWKV_MAX_KVSZ ∧
+    (recs b).Perm (((sl b.slots idx).key, (sl b.slots idx).val) :: recs b') := by
+  rw [updatevOld_eq] at e
+  split at e
+  · exact absurd e (by simp)
+  · exact updatevGrow_failed h idx hidx val hused b' err e
 
 end IwModel.KvBlk
